@@ -1,5 +1,6 @@
 --------------------------- MODULE SeriesIndexMC ---------------------------
 EXTENDS SeriesIndex, Json
+CONSTANT M1c, M2c
 
 \* ---- the universes (characters x y z, digits 1 2, s = a separator byte of the index) -----------
 vX    == <<"x">>
@@ -49,7 +50,11 @@ RegexesSmall == {rLitXY, rAnchXY, rAlt, rCls, rDotStar, rDotPlus, rEmptyAnch, rP
 \* ---- predicate sets -------------------------------------------------------------------------------
 LeavesOf(V, R) == {<<o, k, v>> : o \in {"=", "!="}, k \in TKeys, v \in V}
                   \cup {<<o, k, r>> : o \in {"=~", "!~"}, k \in TKeys, r \in R}
-AllLeaves == TLCEval(LeavesOf(Vals, Regexes))
+BigMults  == TLCEval(SetToSeq(Mults \ {1}))
+XLeaves   == {<<o, j>> : o \in {"n=", "n!="}, j \in XVals}      \* the extra tag of the members
+AllLeaves == TLCEval(LeavesOf(Vals, Regexes) \cup XLeaves)
+EmptyRes    == TLCEval(SetToSeq(EmptyOK))                  \* expressions that match the empty string
+NonEmptyRes == TLCEval(SetToSeq(Regexes \ EmptyOK))
 
 Pairs(L, R)  == {<<o, l, r>> : o \in {"AND", "OR"}, l \in L, r \in R}
 Wrapped(S)   == {<<"P", p>> : p \in S}
@@ -73,14 +78,36 @@ DesignPreds2 == TLCEval(AllLeaves \cup {<<"TRUE">>} \cup Pairs(CoreLeaves, CoreL
 DesignPreds == TLCEval(DesignPreds2 \cup Depth3(TinyLeaves))
 LifePreds   == TLCEval(CoreLeaves \cup {<<"TRUE">>} \cup Pairs(TinyLeaves, TinyLeaves))
 
+\* ---- multiplicities and rows: small stand-ins (RowCap = 2) for the design check, the real row size for the replay
+XValsRows == {-1, 0, 2}
+XValsBig  == {-1, 0, 63, 64, 100}
+RowTagLeaves == {<<"=", "a", vXY>>, <<"!=", "a", vXY>>, <<"=", "b", vX>>, <<"=", "b", <<>>>>, <<"=~", "a", rLitXY>>, <<"!~", "b", rDotStar>>}
+RowPreds  == TLCEval(XLeaves \cup RowTagLeaves \cup {<<"TRUE">>} \cup Pairs(XLeaves, RowTagLeaves) \cup Pairs(RowTagLeaves, XLeaves)
+                     \cup Pairs(XLeaves, XLeaves) \cup Pairs({<<"=", "a", vXY>>, <<"=", "b", vX>>}, {<<"!=", "a", vXY>>, <<"=", "b", <<>>>>}))
+
+\* ---- sequences of searches (history independence) ----------------------------------------------------
+\* life-cycle model: single searches that leave the pooled searcher in either state
+Q(m, p) == [m |-> m, p |-> p]
+LifeBatches == {<<Q(M1c, <<"=~", "a", rDotStar>>)>>, <<Q(M1c, <<"=~", "a", rLitXY>>)>>}
+\* conditions of the conditional listings in the runs without multiplicities (rows never fill up there)
+ListPredsSmall == TLCEval(TinyLeaves \cup {<<"TRUE">>, <<"=", "b", vX>>})
+\* an empty-matching expression, then a non-empty-matching one (positive and negative), repeatedly, so that
+\* whatever object served the first serves one of the others; k2 = key of the empty-matching leaf
+HistBatch(m, k, k2, rE, rs) ==
+  LET one(r) == << Q(m, <<"=~", k2, rE>>), Q(m, <<"=~", k, r>>), Q(m, <<"!~", k2, rE>>), Q(m, <<"!~", k, r>>),
+                   Q(m, <<"AND", <<"=~", k2, rE>>, <<"=~", k, r>>>>), Q(m, <<"=~", k, r>>) >>
+      f[i \in 0..Len(rs)] == IF i = 0 THEN <<>> ELSE f[i - 1] \o one(rs[i])
+  IN f[Len(rs)]
+
 \* ---- initial states for the search design check: any set of <= MaxSeries flushed series ---------------
-CONSTANT M1c, M2c
 NormKeys(m) == {k \in RawKeys : k = Norm(k) /\ k.m = m}
 OtherKey == [m |-> M2c, t |-> [x \in TKeys |-> vXY]]
 SetupFrom(S) ==
   LET q == SetToSeq(S)
       pairs == {<<q[i], 100 + i>> : i \in 1..Len(q)} \cup {<<OtherKey, 100>>}
   IN /\ open' = TRUE /\ pending' = {} /\ cache' = {} /\ nReopen' = 99 /\ hist' = <<>>
+     /\ \E f \in [1..Len(q) -> Mults] : mult' = [i \in 100..(100 + Len(q)) |-> IF i = 100 THEN 1 ELSE f[i - 100]]
+     /\ sflag' = FALSE
      /\ nextId' = [clock |-> 1, seq |-> 50]
      /\ key2id' = pairs
      /\ id2key' = {<<p[2], p[1]>> : p \in pairs}
@@ -96,7 +123,7 @@ IdxSets(n, lo) == {{}} \cup (IF n = 0 THEN {}
 NextSets ==
   \/ /\ nReopen = 0 /\ key2id = {}
      /\ \E i \in 1..NSlices : nReopen' = i
-     /\ UNCHANGED <<open, key2id, id2key, tag2ids, pending, cache, nextId, hist>>
+     /\ UNCHANGED <<open, key2id, id2key, tag2ids, pending, cache, nextId, hist, mult, sflag>>
   \/ /\ nReopen > 0 /\ key2id = {}
      /\ \/ (nReopen = NSlices /\ SetupFrom({}))
         \/ \E j \in {jj \in 1..Len(KeysSeq) : jj % NSlices = nReopen % NSlices} :
@@ -124,10 +151,20 @@ RandTree(d, x) ==
   ELSE CHOOSE t \in {MkNode(s, l, r) : s \in {RandomElement(Shapes)},
                                        l \in {RandTree(d - 1, x + 1)},
                                        r \in {RandTree(d - 1, x + 2)}} : TRUE
-BatchLen == 6
-SimBatch(x) == TLCEval([i \in 1..BatchLen |->
+BatchLen == 5
+SimBase(x) == TLCEval([i \in 1..BatchLen |->
                   [m |-> RandomElement(Msts), p |-> RandTree(RandomElement({1, 2, 2, 3, 3, 3}), x + i)]])
+\* random searches, then an empty-matching expression followed by a non-empty-matching one (both signs) and
+\* REPEATS of searches made earlier in the sequence: every one has the same expectation as the first time
+SimTail(x, b) ==
+  CHOOSE t \in {<< Q(m, <<"=~", k2, rE>>), Q(m, <<"=~", k, r>>), Q(m, <<"!~", k, r>>), b[1],
+                   Q(m, <<"!~", k2, rE>>), Q(m, <<"!~", k, r>>), b[2], Q(m, <<"=~", k, r>>) >> :
+                   m \in {RandomElement(Msts)}, k \in {RandomElement(TKeys)}, k2 \in {RandomElement(TKeys)},
+                   rE \in {RandomElement(EmptyOK)}, r \in {RandomElement(Regexes \ EmptyOK)}} : TRUE
+SimBatch(x) == CHOOSE s \in {b \o SimTail(x, b) : b \in {SimBase(x)}} : TRUE
 SimBatches == {SimBatch(Len(hist) + j) : j \in 1..2}
+\* multiplicities: mostly 1, now and then around the row size of the tag->ids items
+SimMults == {CHOOSE n \in {IF i > Len(BigMults) THEN 1 ELSE BigMults[i] : i \in {RandomElement(1..(12 * Len(BigMults)))}} : Len(hist) >= 0}
 SimCreate  == {[m |-> RandomElement(Msts), t |-> [x \in TKeys |-> RandomElement(RawVals)]] : j \in 1..3}
               \cup {it[1] : it \in {RandomElement(key2id \cup {<<[m |-> M1c, t |-> [x \in TKeys |-> NoTag]], 0>>})}}
 
@@ -143,6 +180,8 @@ BfsBatch == << [m |-> M1c, p |-> <<"TRUE">>],
                [m |-> M1c, p |-> <<"!~", "b", rDotPlus>>],
                [m |-> M1c, p |-> <<"OR", <<"=", "b", vXY>>, <<"P", <<"AND", <<"=", "a", vX>>, <<"=", "b", <<>>>>>>>>>>],
                [m |-> M2c, p |-> <<"TRUE">>] >>
+              \o << Q(M1c, <<"=~", "a", rDotStar>>), Q(M1c, <<"=~", "a", rLitXY>>), Q(M1c, <<"!~", "a", rLitXY>>),
+                    Q(M1c, <<"!~", "b", rEmptyAnch>>), Q(M1c, <<"=~", "a", rCls>>), Q(M1c, <<"!~", "b", rDotPlus>>) >>
 BfsBatches == {BfsBatch}
 
 \* ---- scripted export: fixed rich series sets, every leaf and the design trees, in chunks -------------
@@ -159,14 +198,67 @@ Chunk(c) == LET lo == (c - 1) * ChunkLen + 1
                 hi == IF c * ChunkLen < Len(ScriptPreds) THEN c * ChunkLen ELSE Len(ScriptPreds)
                 ps == SubSeq(ScriptPreds, lo, hi)
             IN [i \in 1..(2 * Len(ps)) |-> [m |-> IF i % 2 = 1 THEN M1c ELSE M2c, p |-> ps[(i + 1) \div 2]]]
+\* history sequences over the scripted sets: every empty-matching expression, followed by a rotating
+\* choice of four non-empty-matching ones, on the same and on the other key
+Rot(i, j) == NonEmptyRes[((i * 4 + j) % Len(NonEmptyRes)) + 1]
+ScriptHist == {HistBatch(m, k, k2, EmptyRes[i], <<Rot(i, 0), Rot(i, 1), Rot(i, 2), Rot(i, 3)>>) :
+                 m \in {M1c}, k \in TKeys, k2 \in TKeys, i \in 1..Len(EmptyRes)}
 ScriptNext ==
   LET n == Len(hist)
   IN IF n < ScriptLen
        THEN \E s \in Scripts : (\A j \in 1..n : hist[j].args = s[j]) /\ Create(s[n + 1])
      ELSE IF n = ScriptLen THEN IndexFlush
-     ELSE IF n = ScriptLen + 1 THEN \E c \in 1..NChunks : SearchBatch(Chunk(c))
+     ELSE IF n = ScriptLen + 1 THEN \/ \E c \in 1..NChunks : SearchBatch(Chunk(c))
+                                    \/ \E b \in ScriptHist : SearchBatch(b)
      ELSE FALSE /\ UNCHANGED vars
 SpecScript == Init /\ [][ScriptNext]_vars
+
+\* ---- scripted export with LARGE multiplicities: tag->ids rows reach and exceed RowCap ----------------
+\* each script: three series with multiplicities; path A = create all, IndexFlush, Close, Reopen (the merge
+\* consolidates the rows), Search; path B = create two, IndexFlush, create the third, IndexFlush, ClearCache,
+\* Search (rows of one value spread over two parts)
+BigScripts == { << <<K(M1c, vXY, vX), 64>>,    <<K(M1c, vXY, vY), 1>>,    <<K(M1c, vX, vY), 1>> >>,
+                << <<K(M1c, vXY, NoTag), 130>>, <<K(M1c, vX, vXY), 1>>,   <<K(M2c, vXY, vXY), 65>> >>,
+                << <<K(M1c, vXY, vX), 63>>,    <<K(M1c, vXY, vY), 65>>,   <<K(M1c, NoTag, vY), 1>> >>,
+                << <<K(M1c, vX, vXY), 65>>,    <<K(M1c, vXY1, vXY), 64>>, <<K(M1c, vZXY1, vXY), 1>> >>,
+                << <<K(M1c, vXY, vXY), 1>>,    <<K(M1c, vXY, vX), 130>>,  <<K(M1c, vY, vX), 63>> >> }
+BigPredSet == TLCEval(
+  LET xl == {<<"n=", -1>>, <<"n=", 0>>, <<"n=", 62>>, <<"n=", 63>>, <<"n=", 64>>, <<"n=", 100>>, <<"n=", 129>>,
+             <<"n!=", 0>>, <<"n!=", 64>>, <<"n!=", -1>>}
+      tl == {<<"=", "a", vXY>>, <<"=", "b", vY>>, <<"=", "b", vX>>, <<"!=", "b", vX>>, <<"=", "b", <<>>>>,
+             <<"!=", "a", vXY>>, <<"=", "a", vX>>, <<"=~", "a", rLitXY>>, <<"=~", "b", rDotStar>>, <<"!~", "a", rLitX>>,
+             <<"=~", "b", rCls>>, <<"=", "b", vXY>>, <<"=", "a", vZXY1>>}
+  IN {<<"TRUE">>} \cup xl \cup tl
+     \cup {<<"AND", t, x>> : t \in {<<"=", "a", vXY>>, <<"=", "b", vXY>>, <<"!=", "b", vX>>}, x \in {<<"n=", 64>>, <<"n=", 100>>, <<"n!=", 0>>}}
+     \* conjunctions of a selective member leaf and a regular expression: once the cost of the filters is known,
+     \* seriesByTagFilters applies the expensive one by doPrune (matching on the series key) instead of the index scan
+     \cup {<<"AND", x, t>> : t \in {<<"=~", "a", rLitXY>>, <<"!~", "a", rLitX>>, <<"=~", "b", rCls>>, <<"=~", "b", rPre>>}, x \in {<<"n=", 64>>, <<"n=", 100>>}}
+     \cup {<<"AND", <<"=~", "a", rLitXY>>, <<"n=", 0>>>>, <<"AND", <<"!~", "b", rLitXY>>, <<"n=", 62>>>>}
+     \cup {<<"OR", <<"n=", 64>>, <<"=", "b", vY>>>>, <<"OR", <<"=", "a", vX>>, <<"n=", 129>>>>,
+           <<"AND", <<"n!=", 0>>, <<"n!=", 64>>>>, <<"OR", <<"n=", 63>>, <<"n=", 64>>>>})
+BigPreds == TLCEval(SetToSeq(BigPredSet))
+BigChunkLen == 16
+BigNChunks == (Len(BigPreds) + BigChunkLen - 1) \div BigChunkLen
+BigChunk(c) == LET lo == (c - 1) * BigChunkLen + 1
+                   hi == IF c * BigChunkLen < Len(BigPreds) THEN c * BigChunkLen ELSE Len(BigPreds)
+                   ps == SubSeq(BigPreds, lo, hi)
+               IN [i \in 1..Len(ps) |-> Q(M1c, ps[i])] \o << Q(M2c, <<"TRUE">>), Q(M2c, <<"n=", 64>>), Q(M2c, <<"n!=", 0>>) >>
+CreateN(e) == Create(e[1]) /\ hist'[Len(hist')].exp.x.n = e[2]
+Agrees(s, n) == \A j \in 1..n : hist[j].a = "Create" => (hist[j].args = s[j][1] /\ hist[j].exp.x.n = s[j][2])
+BigNext ==
+  LET n == Len(hist)
+      pathA == n >= 4 /\ hist[4].a = "IndexFlush"
+  IN \/ n < 2 /\ \E s \in BigScripts : Agrees(s, n) /\ CreateN(s[n + 1])
+     \/ n = 2 /\ \E s \in BigScripts : Agrees(s, n) /\ CreateN(s[3])                      \* path A
+     \/ n = 2 /\ IndexFlush                                                              \* path B
+     \/ n = 3 /\ hist[3].a = "Create" /\ IndexFlush
+     \/ n = 3 /\ hist[3].a = "IndexFlush" /\ \E s \in BigScripts : Agrees(s, 2) /\ CreateN(s[3])
+     \/ n = 4 /\ pathA /\ Close
+     \/ n = 4 /\ ~pathA /\ IndexFlush
+     \/ n = 5 /\ hist[5].a = "Close" /\ Reopen
+     \/ n = 5 /\ hist[5].a = "IndexFlush" /\ ClearCache
+     \/ n = 6 /\ \E c \in 1..BigNChunks : SearchBatch(BigChunk(c))
+SpecBig == Init /\ [][BigNext]_vars
 
 Export == (Len(hist) = Depth) => PrintT(<<"TRACE", ToJson(hist)>>)
 =============================================================================
